@@ -60,6 +60,12 @@ impl<T> Outcome<T> {
 /// regardless of where the tree lives.
 pub fn normalise_panic(p: &str) -> String {
     let mut s = p.to_string();
+    // "thread 'main' (12345) panicked at" - the thread id differs between processes
+    if let (Some(a), Some(b)) = (s.find("' ("), s.find(") panicked")) {
+        if a < b {
+            s.replace_range(a + 1..b + 1, "");
+        }
+    }
     if let Some(i) = s.find("/src/") {
         // keep the crate-relative part only
         let head = &s[..i];
